@@ -170,6 +170,8 @@ var c20Menus = map[string][]c20Outcome{
 		{"stdin-pipe-error", true, 0, vexec.Outcome{PipeErr: errors.New("pipe: too many open files")}},
 		{"stdin-write-error", true, 0, vexec.Outcome{WriteErr: errors.New("write |1: broken pipe")}},
 		{"non-json-stdout", true, 0, vexec.Outcome{Stdout: []byte("shellcheck: internal error")}},
+		{"json-then-garbage", true, 0, vexec.Outcome{Stdout: []byte("[]\nshellcheck: internal error")}},
+		{"two-issue-lists", true, 0, vexec.Outcome{Stdout: []byte(`[{"line":2,"column":1,"level":"warning","code":2086,"message":"Double quote."}]` + "\n" + `[{"line":2,"column":3,"level":"info","code":2016,"message":"Other."}]`), ExitCode: 1}},
 	},
 	"pyflakes": {
 		{"1issue", false, 1, vexec.Outcome{Stdout: []byte("<stdin>:1:1: 'os' imported but unused\n"), ExitCode: 1}},
